@@ -23,7 +23,7 @@ T7 = [
 T8 = [
     ("dyn_read_a", r"&'a mut dyn (?:io::|std::io::)?Read\b", "DynRead<'a>", "trait object replaced by the opaque shim DynRead (same ghost state; dispatch is irrelevant to the contracts)"),
     ("dyn_read", r"&mut dyn (?:io::|std::io::)?Read\b", "DynRead<'_>", "same"),
-    ("dyn_write", r"&mut dyn (?:io::|std::io::)?Write\b", "DynWrite<'_>", "trait object replaced by the opaque shim DynWrite"),
+    ("dyn_write", r"&mut dyn (?:io::|std::io::)?Write\b", "&mut GenericZipWriter<W>", "the trait object handed out by GenericZipWriter::ref_mut (its only producer) is represented by the enum it points into; dynamic dispatch = the variant's own write/flush (common/writer_types.rs, `impl Write for GenericZipWriter`)"),
     ("flate2_read", r"flate2::read::DeflateDecoder", "DeflateDecoder", "crate path resolves to the decoder shim"),
     ("std_io", r"(?<![\w:])(?:::)?std::io::(Take|Read|Write|Seek|Result|Error|ErrorKind)\b", r"io::\1", "absolute std::io path resolves to the io shim module"),
     ("std_path", r"(?<![\w:])::std::path::(PathBuf|Path|Component|MAIN_SEPARATOR)\b", r"path::\1", "absolute std::path path resolves to the path shim module"),
